@@ -1318,13 +1318,27 @@ Proof.
   unfold dot_route, g_dot. cbn. destruct (Z.eqb_spec la lb); cbn; reflexivity.
 Qed.
 
+Lemma dot_route_0d (a_ndim b_ndim la lb : Z) :
+  (a_ndim =? 0) || (b_ndim =? 0) = true -> dot_route a_ndim b_ndim la lb = Ok Path0d.
+Proof.
+  unfold dot_route, g_dot. cbn.
+  destruct (Z.eqb_spec a_ndim 0); cbn; [reflexivity|]. destruct (Z.eqb_spec b_ndim 0); cbn; intros H; [reflexivity|discriminate].
+Qed.
+
 Lemma dot_route_nd (a_ndim b_ndim la lb : Z) :
-  negb ((a_ndim =? 1) && (b_ndim =? 1)) = true ->
+  (a_ndim =? 0) || (b_ndim =? 0) = false -> negb ((a_ndim =? 1) && (b_ndim =? 1)) = true ->
   dot_route a_ndim b_ndim la lb = Ok (PathTensordot (-1) (if b_ndim =? 1 then -1 else -2)).
 Proof.
   unfold dot_route, g_dot. cbn.
+  destruct (Z.eqb_spec a_ndim 0); cbn; [discriminate|]. destruct (Z.eqb_spec b_ndim 0); cbn; [discriminate|]. intros _.
   destruct (Z.eqb_spec a_ndim 1); cbn; destruct (Z.eqb_spec b_ndim 1); cbn; intros H; try discriminate; reflexivity.
 Qed.
+
+(* tensordot's zero-size block returns the requested kind (and the model of it is what the source does) *)
+Theorem td_shortcut_kind_proof (ka kb : okind) (rt : rtype) :
+  source_shortcut_kind ka kb rt = Some (rkind_code (td_shortcut_kind ka kb rt))
+  /\ rkind_matches rt (td_shortcut_kind ka kb rt) = true.
+Proof. destruct ka as [|[|]|], kb as [|[|]|], rt; split; vm_compute; reflexivity. Qed.
 
 Section Dot1d.
   Variable V : Type.
